@@ -2,6 +2,7 @@ package gomatrixserverlib
 
 import (
 	"encoding/json"
+	"strings"
 
 	"github.com/matrix-org/gomatrixserverlib/spec"
 )
@@ -97,7 +98,7 @@ var (
 		"m.room.history_visibility": {"history_visibility"},
 	}
 	unredactableContentFieldsV5 = map[string][]string{
-		"m.room.member":             {"membership", "join_authorised_via_users_server"},
+		"m.room.member":             {"membership", "join_authorised_via_users_server", "third_party_invite.signed"},
 		"m.room.create":             {}, // NOTE: Keep all fields
 		"m.room.join_rules":         {"join_rule", "allow"},
 		"m.room.power_levels":       {"ban", "events", "events_default", "kick", "redact", "state_default", "users", "users_default", "invite"},
@@ -159,6 +160,15 @@ func redactEventJSON[T unredactableEvent](eventJSON []byte, unredactableEvent T,
 		newContent = unredactableEvent.GetContent()
 	} else {
 		for _, contentKey := range keepContentFields {
+			// "outer.inner" keeps only the inner key of the outer object.
+			if outer, inner, nested := strings.Cut(contentKey, "."); nested {
+				if obj, isObj := unredactableEvent.GetContent()[outer].(map[string]interface{}); isObj {
+					if val, ok := obj[inner]; ok {
+						newContent[outer] = map[string]interface{}{inner: val}
+					}
+				}
+				continue
+			}
 			val, ok := unredactableEvent.GetContent()[contentKey]
 			if ok {
 				newContent[contentKey] = val
